@@ -64,8 +64,59 @@ def walk_templates(recipe):
             yield from rec(st, True)
 
 
-def analyse(recipe):
+def expand(recipe, files=None):
+    """The recipe with `include_file` statements inlined and every template's `include:` macros
+    merged into its own fields / friends (the template's own entries win) — what the templates
+    mean, as far as the oracle needs it.  YAML anchors / merge keys are already resolved by the loader."""
+    import copy
+
+    files = files or {}
+
+    def statements(rec, depth=0):
+        out = []
+        for st in rec or []:
+            if isinstance(st, dict) and "include_file" in st and depth < 5:
+                out.extend(statements(yaml.safe_load(files.get(st["include_file"], "[]")), depth + 1))
+            else:
+                out.append(st)
+        return out
+
+    sts = statements(recipe)
+    macros = {st["macro"]: st for st in sts if isinstance(st, dict) and "macro" in st}
+
+    def macro_parts(name, seen=()):
+        m = macros.get(name)
+        if m is None or name in seen:
+            return {}, []
+        f, fr = {}, []
+        for inc in [x.strip() for x in str(m.get("include") or "").split(",") if x.strip()]:
+            f2, fr2 = macro_parts(inc, seen + (name,))
+            f.update(f2)
+            fr.extend(fr2)
+        f.update(m.get("fields") or {})
+        fr.extend(m.get("friends") or [])
+        return f, fr
+
+    def tmpl(t):
+        t = dict(t)
+        f, fr = {}, []
+        for inc in [x.strip() for x in str(t.get("include") or "").split(",") if x.strip()]:
+            f2, fr2 = macro_parts(inc)
+            f.update(f2)
+            fr.extend(fr2)
+        f.update(t.get("fields") or {})
+        fr.extend(t.get("friends") or [])
+        t["fields"] = {k: ([tmpl(c) if isinstance(c, dict) and "object" in c else c for c in v] if isinstance(v, list) else v)
+                       for k, v in f.items()}
+        t["friends"] = [tmpl(c) if isinstance(c, dict) and "object" in c else c for c in fr]
+        return t
+
+    return [tmpl(st) if isinstance(st, dict) and "object" in st else st for st in copy.deepcopy(sts)]
+
+
+def analyse(recipe, files=None):
     """Metadata the oracle needs, derived from the recipe structure only."""
+    recipe = expand(recipe, files)
     tables, nick2table, tpl_nick, pickers, names = set(), {}, {}, {}, set()
     nick_tables, nested_nicks, tpl_jo = {}, set(), set()
     for t, top in walk_templates(recipe):
@@ -176,7 +227,11 @@ class Tracer:
             # picker field the returned context is being used for
             rv = o_genval(field, context)
             if isinstance(rv, RC):
-                tr.ctx_field[id(rv)] = (getattr(context, "current_table_name", None), field.name)
+                # call site = (table of the template, field name, source line of the template): two
+                # templates that get the same field text from a macro / YAML alias are two call sites
+                tmpl = getattr(context, "current_template", None)
+                tr.ctx_field[id(rv)] = (getattr(context, "current_table_name", None), field.name,
+                                        getattr(tmpl, "line_num", None), getattr(tmpl, "filename", None))
             return rv
 
         def digest(h):
@@ -237,7 +292,7 @@ class Tracer:
             # must not take `unique` / `parent` from the implementation's state)
             ctx = tr.cur_ctx
             field = tr.ctx_field.get(id(ctx))
-            spec = tr.pickers.get(field)
+            spec = tr.pickers.get(field[:2]) if field else None
             if isinstance(spec, dict):
                 unique = bool(spec.get("unique"))
             else:
@@ -389,7 +444,7 @@ class Chain:
 
 def run_chain(case):
     recipe = yaml.safe_load(case["recipe"])
-    meta = analyse(recipe)
+    meta = analyse(recipe, case.get("files"))
     tr = Tracer(Draws(case.get("dseed", 0), case.get("forced", ())))
     tr.univ = meta["names"]
     tr.pickers = {k: ({"to": v} if isinstance(v, str) else v) for k, v in meta["pickers"].items()}
@@ -401,7 +456,8 @@ def run_chain(case):
         for k in case["parts"]:
             tr.row_offset = len(emitted)
             tr.interp = None
-            res = common.run_recipe(case["recipe"], reps=k, continuation=cont, want_continuation=True)
+            res = common.run_recipe(case["recipe"], reps=k, continuation=cont, want_continuation=True,
+                                    files=case.get("files"))
             ch.results.append(res)
             emitted.extend(res.rows)
             if res.outcome != "ok":
@@ -432,7 +488,7 @@ def oracle(rep, case, ch):
     last_lo = {}  # (run, site, parent) -> bottom of the last range handed to the unique picker
 
     def viol(sig, what, expected=None, observed=None):
-        rep.violation(sig, what, {k: case[k] for k in ("recipe", "parts", "dseed", "forced") if k in case}, expected, observed)
+        rep.violation(sig, what, {k: case[k] for k in ("recipe", "parts", "dseed", "forced", "files") if k in case}, expected, observed)
 
     def out_of_order(table, n):
         ids = [r["id"] for r in rows[:n] if r["table"] == table]
@@ -574,7 +630,7 @@ def model_requests(ch):
 
 def compare(rep, case, ch, reqs, meta, results):
     tr = ch.trace
-    cs = {k: case[k] for k in ("recipe", "parts", "dseed", "forced") if k in case}
+    cs = {k: case[k] for k in ("recipe", "parts", "dseed", "forced", "files") if k in case}
     nops = 0
     for (kind, key), req, (st, val) in zip(meta, reqs, results):
         if st != "ok":
@@ -733,7 +789,7 @@ class Gen:
     def recipe(self):
         rng = self.rng
         layout = rng.choice(["table", "nick", "multi", "forward", "nested", "just_once", "unique_counts",
-                             "unique_growth", "parent", "resave", "varying", "varying", "mixed", "mixed", "mixed"])
+                             "unique_growth", "parent", "resave", "varying", "varying", "shared", "shared", "mixed", "mixed", "mixed"])
         self.features.add("layout:" + layout)
         rec = []
         if layout == "table":
@@ -801,6 +857,65 @@ class Gen:
             rec.append(self.picker())
             if rng.random() < 0.4:
                 rec.insert(rng.randint(0, 1), self.picker(to=rng.choice(["T", "n"])))
+        elif layout == "shared":
+            # ONE piece of recipe text supplies the picker field to 2-3 templates: a macro (in the
+            # recipe or in an included file), a YAML anchor/alias, a `<<:` merge key.  Each template
+            # is its own call site: its unique picker uses every target and never repeats, whatever
+            # the other templates took
+            mode = rng.choice(["macro", "macro", "anchor", "merge", "include_file"])
+            self.features.add("shared:" + mode)
+            a = rng.randint(1, 5)
+            nk = rng.choice([None, None, "n"])
+            rec.append(self.target("T", nk, count=a))
+            unique = rng.random() < 0.75
+            with_parent = rng.random() < 0.3
+            spec = {"to": nk or "T"}
+            if unique:
+                spec["unique"] = True
+                self.features.add("unique")
+            if with_parent:
+                spec["parent"] = "C"
+                self.features.add("parent")
+            if rng.random() < 0.15:
+                spec["scope"] = PRIOR
+                self.features.add("prior-scope")
+            shared_fields = {"r": {"random_reference": spec if len(spec) > 1 or rng.random() < 0.5 else spec["to"]}}
+            if with_parent:
+                shared_fields["par"] = {"reference": "C"}
+            n_users = rng.choice([2, 2, 3])
+            users = []
+            for i, tb in enumerate(rng.sample(["P", "Q", "M"], n_users)):
+                b = rng.choice([a, a, a, a + 1, max(a - 1, 1), rng.randint(1, 5)])
+                u = {"object": tb}
+                if b != 1:
+                    u["count"] = b
+                if mode in ("macro", "include_file"):
+                    u["include"] = "shared"
+                    if rng.random() < 0.3:
+                        u["fields"] = {"x": i}
+                elif mode == "anchor":
+                    u["fields"] = shared_fields  # same object twice: dumped as &id / *id
+                else:
+                    u["fields"] = {"<<": shared_fields, "x": i}
+                users.append(u)
+            if mode == "macro":
+                rec.insert(rng.randint(0, 1), {"macro": "shared", "fields": shared_fields})
+            elif mode == "include_file":
+                self.files = {"child.yml": yaml.safe_dump([{"macro": "shared", "fields": shared_fields}], sort_keys=False)}
+                rec.insert(0, {"include_file": "child.yml"})
+            if with_parent:
+                rec.append({"object": "C", "count": rng.randint(1, 3), "friends": users})
+            else:
+                placement = rng.choice(["top", "top", "friends", "nested", "mixed"])
+                self.features.add("shared:placement:" + placement)
+                for i, u in enumerate(users):
+                    how = placement if placement != "mixed" else ["top", "friends", "nested"][i % 3]
+                    if how == "top":
+                        rec.append(u)
+                    elif how == "friends":
+                        rec.append({"object": "W", "count": rng.choice([1, 2]), "friends": [u]})
+                    else:
+                        rec.append({"object": "W", "count": rng.choice([1, 2]), "fields": {"c%d" % i: [u]}})
         elif layout == "varying":
             # the number of new targets per iteration varies, INCLUDING ZERO (count formula over a
             # one-row-per-iteration Tick table); unique pickers live across all iterations, with more
@@ -890,8 +1005,11 @@ def gen_case(rng):
         parts = [1] + common_compositions(rng.randint(1, 3), rng)
     if len(parts) > 1:
         g.features.add("continuation")
-    return {"recipe": yaml.safe_dump(rec, sort_keys=False), "parts": parts, "dseed": rng.randint(0, 10**9),
-            "features": sorted(g.features)}
+    case = {"recipe": yaml.safe_dump(rec, sort_keys=False).replace("'<<':", "<<:"), "parts": parts,
+            "dseed": rng.randint(0, 10**9), "features": sorted(g.features)}
+    if getattr(g, "files", None):
+        case["files"] = g.files
+    return case
 
 
 def common_compositions(k, rng):
@@ -923,7 +1041,7 @@ def run_case(case, rep, pending):
     ch = run_chain(case)
     tr = ch.trace
     npicks = sum(1 for e in tr.picks if e["ok"])
-    rep.case({k: case[k] for k in ("recipe", "parts", "dseed", "forced") if k in case}, nontrivial=npicks >= 1 and len(ch.rows) >= 2)
+    rep.case({k: case[k] for k in ("recipe", "parts", "dseed", "forced", "files") if k in case}, nontrivial=npicks >= 1 and len(ch.rows) >= 2)
     rep.count("outcome:" + ch.outcome.split(":")[0])
     if ch.outcome.startswith("internal"):
         rep.count("outcome-detail:" + ch.outcome)
@@ -963,7 +1081,7 @@ def run(ctx, rep, findings):
         "recipes built from layouts {target by table, by nickname, several templates feeding one table, "
         "forward-reserved ids, nested/friend placement (picker friend of target, target in wrapper, target as friend, "
         "picker nested, same-table nesting), just_once targets, unique with (targets, pickers) in 0..6 incl. "
-        "pickers = targets and targets + 1, unique with growth inside an iteration, unique per parent, varying number of new targets per iteration incl. zero (Tick-driven count formulas), re-save layouts, mixed} x 1-4 "
+        "pickers = targets and targets + 1, unique with growth inside an iteration, unique per parent, varying number of new targets per iteration incl. zero (Tick-driven count formulas), re-save layouts, one field text shared by 2-3 templates through a macro / YAML alias / merge key / included file, mixed} x 1-4 "
         "iterations x continuation compositions; every draw chosen by the harness (both ends forced 25% each). "
         "Non-trivial: at least one successful pick and >= 2 emitted rows. Distinct = distinct (recipe, parts, draw seed)."
     )
@@ -994,6 +1112,8 @@ def shrink(case, signature):
     def fails(rec, parts):
         c = {"recipe": yaml.safe_dump(rec, sort_keys=False), "parts": parts, "dseed": case.get("dseed", 0),
              "forced": case.get("forced", ())}
+        if case.get("files"):
+            c["files"] = case["files"]
         r = common.Report("C10")
         try:
             oracle(r, c, run_chain(c))
@@ -1015,5 +1135,8 @@ def shrink(case, signature):
             if not fails(rec, parts):
                 t["count"] = old
                 break
-    return {"recipe": yaml.safe_dump(rec, sort_keys=False), "parts": parts, "dseed": case.get("dseed", 0),
-            "forced": list(case.get("forced", ()))}
+    out = {"recipe": yaml.safe_dump(rec, sort_keys=False), "parts": parts, "dseed": case.get("dseed", 0),
+           "forced": list(case.get("forced", ()))}
+    if case.get("files"):
+        out["files"] = case["files"]
+    return out
